@@ -289,6 +289,11 @@ func pinnedCases() []pinned {
 		out = append(out, pinned{File: "C18/string_examples_become_booleans_in_json.json", Doc: &c18Case{Property: "C18", Schema: s}})
 	}
 	{
+		s, _, _, _, svc := baseSchema("p0048")
+		svc.Headers = []*schema.Header{{Name: "X-Answer", Type: "string", Required: true, Example: "no"}}
+		out = append(out, pinned{File: "C18/string_header_example_becomes_boolean_in_json.json", Doc: &c18Case{Property: "C18", Schema: s}})
+	}
+	{
 		s, _, resp, _, _ := baseSchema("p0060")
 		resp.Oneofs = []*schema.Oneof{{Name: "content", Discriminator: "kind"}}
 		resp.Fields = append(resp.Fields, &schema.Field{Name: "text", Number: 2, Kind: schema.KString, Card: schema.Singular, Oneof: "content"},
